@@ -73,33 +73,33 @@ theorem C06_mirror {sp : Space} (hsp : SpaceOK sp) {s : State} (h : Reachable sp
     rw [e1] at e2; simpa using e2
   · exact ⟨hi.mem_cell a c hm, hi.occ_cells a c hm⟩
 
-/-- Capacity: after any history a cell with capacity k ≥ 1 holds at most k agents. -/
+/-- Capacity: after any history a cell with capacity k holds at most k agents — for every k, 0 included (a cell of
+    capacity 0, e.g. a tiny Voronoi cell under the default capacity function, never holds anybody: repair SC3). -/
 theorem C06_capacity {sp : Space} (hsp : SpaceOK sp) {s : State} (h : Reachable sp s) (c : Cid) (k : Nat)
-    (hk : sp.cap c = some k) (hk1 : 1 ≤ k) : (s.occ c).length ≤ k :=
-  (reachable_inv hsp h).cap c k hk (by omega)
+    (hk : sp.cap c = some k) : (s.occ c).length ≤ k :=
+  (reachable_inv hsp h).cap c k hk
 
 /-- The default `capacity_function` of `VoronoiGrid` (`round_float`): the i-th cell, of exact area `num/den`, gets
     the capacity `k = int(500 · area)`, i.e. `k ≤ 500 · num/den < k + 1`, whatever `capacity` was passed to the
-    constructor; and after any history a cell with `k ≥ 1` holds at most `k` agents (each cell its own bound). -/
+    constructor; and after any history the cell holds at most `k` agents (each cell its own bound; `k = 0`: nobody). -/
 theorem C06_voronoi_default_capacity (n : Nat) (tris : List (Nat × Nat × Nat)) (areas : List (Nat × Nat))
     (ht : ∀ t ∈ tris, t.1 < n ∧ t.2.1 < n ∧ t.2.2 < n) (i num den : Nat) (ha : areas[i]? = some (num, den)) (hd : 0 < den) :
     (vorSpaceAreas n tris areas).cap [(i : Int)] = some (roundFloat num den) ∧
     roundFloat num den * den ≤ 500 * num ∧ 500 * num < (roundFloat num den + 1) * den ∧
-    (∀ s, Reachable (vorSpaceAreas n tris areas) s → 1 ≤ roundFloat num den →
-      (s.occ [(i : Int)]).length ≤ roundFloat num den) := by
+    (∀ s, Reachable (vorSpaceAreas n tris areas) s → (s.occ [(i : Int)]).length ≤ roundFloat num den) := by
   have hcap : (vorSpaceAreas n tris areas).cap [(i : Int)] = some (roundFloat num den) := by
     simp [vorSpaceAreas, ha]
-  refine ⟨hcap, (roundFloat_spec num den hd).1, (roundFloat_spec num den hd).2, fun s hr h1 => ?_⟩
-  exact (reachable_inv (vorSpaceAreas_ok n tris areas ht) hr).cap _ _ hcap (by omega)
+  refine ⟨hcap, (roundFloat_spec num den hd).1, (roundFloat_spec num den hd).2, fun s hr => ?_⟩
+  exact (reachable_inv (vorSpaceAreas_ok n tris areas ht) hr).cap _ _ hcap
 
 /-- Emptiness views agree with the truth after any history: `is_empty` is "no agents"; `is_full` is exactly
-    "`add_agent` would refuse" (for capacities ≥ 1); on a grid the `empty` property layer / `cell.empty`
+    "`add_agent` would refuse" (every capacity: None, 0, k); on a grid the `empty` property layer / `cell.empty`
     holds `is_empty` for every cell; `empties` is the list of cells without agents; `space.agents` is the
     cells' agent lists chained — duplicate-free, containing exactly the listed agents, among them every
     agent still in the model that reports a cell. -/
 theorem C06_views {sp : Space} (hsp : SpaceOK sp) {s : State} (h : Reachable sp s) :
     (∀ c, isEmpty s c = true ↔ s.occ c = []) ∧
-    (∀ c k, sp.cap c = some k → 1 ≤ k → (isFull sp s c = true ↔ fullFor sp s c = true)) ∧
+    (∀ c, isFull sp s c = fullFor sp s c) ∧
     (sp.isGrid = true → ∀ c, s.flag c = some (isEmpty s c)) ∧
     (∀ c, c ∈ empties sp s ↔ c ∈ sp.cells ∧ s.occ c = []) ∧
     (spaceAgents sp s = sp.cells.flatMap s.occ ∧ (spaceAgents sp s).Nodup) ∧
@@ -113,13 +113,17 @@ theorem C06_views {sp : Space} (hsp : SpaceOK sp) {s : State} (h : Reachable sp 
     constructor
     · rintro ⟨c, _, hm⟩; exact ⟨c, hm⟩
     · rintro ⟨c, hm⟩; exact ⟨c, hi.occ_cells a c hm, hm⟩
-  refine ⟨fun c => by simp [isEmpty], fun c k hk hk1 => ?_, fun hg c => ?_, fun c => ?_, ⟨hsa, ?_⟩, hmem,
+  refine ⟨fun c => by simp [isEmpty], fun c => ?_, fun hg c => ?_, fun c => ?_, ⟨hsa, ?_⟩, hmem,
     fun a c hr hc => ?_⟩
-  · have hcap := hi.cap c k hk (by omega)
-    simp only [isFull, fullFor, hk]
-    have : k ≠ 0 := by omega
-    simp [this]
-    omega
+  · cases hk : sp.cap c with
+    | none => simp [isFull, fullFor, hk]
+    | some k =>
+      have hcap := hi.cap c k hk
+      simp only [isFull, fullFor, hk]
+      by_cases he : (s.occ c).length = k
+      · simp [he]
+      · have : ¬ (s.occ c).length ≥ k := by omega
+        simp [he, this]
   · rcases hi.flag c with h1 | ⟨h1, _⟩
     · exact h1
     · rw [hg] at h1; simp at h1
@@ -393,15 +397,15 @@ theorem C06_select_random_spec {sp : Space} (hsp : SpaceOK sp) {s : State} (h : 
 
 /-- `a.cell = space[c]` (= `a.move_to(space[c])`) for a CellAgent / Grid2DMovingAgent, after any history, for any cell of the
     space: it is refused — "Cell is full", nothing changed — **iff** `c` is not the agent's own cell and `c` has a capacity
-    `n ≥ 1` and holds exactly `n` agents (so never for capacity `None` or the falsy capacity 0, and never when re-entering the
-    own, possibly full, cell); otherwise it returns, the agent reports `c`, `c`'s list is its old list without the agent plus
+    `n` and holds exactly `n` agents (so never for capacity `None`, always for capacity 0, and never when re-entering the own,
+    possibly full, cell); otherwise it returns, the agent reports `c`, `c`'s list is its old list without the agent plus
     the agent at the end, every other list is the old one without the agent (only the cell left changes), no other agent's
     cell changes and the model's registry is untouched. -/
 theorem C06_assignment_exact {sp : Space} (hsp : SpaceOK sp) {s : State} (h : Reachable sp s) (a : Aid) (k : AKind)
     (hk : s.kinds[a]? = some k) (hmob : k ≠ .fixed) (c : Cid) (hc : c ∈ sp.cells) :
     (step sp s (.moveTo a c) = step sp s (.setCell a (some c))) ∧
     ((step sp s (.setCell a (some c))).2 = .err .full ↔
-      s.cellOf a ≠ some c ∧ ∃ n, sp.cap c = some n ∧ 1 ≤ n ∧ (s.occ c).length = n) ∧
+      s.cellOf a ≠ some c ∧ ∃ n, sp.cap c = some n ∧ (s.occ c).length = n) ∧
     ((step sp s (.setCell a (some c))).2 = .err .full → (step sp s (.setCell a (some c))).1 = s) ∧
     ((step sp s (.setCell a (some c))).2 ≠ .err .full →
       (step sp s (.setCell a (some c))).2 = .ok ∧
@@ -434,7 +438,7 @@ theorem C06_assignment_exact {sp : Space} (hsp : SpaceOK sp) {s : State} (h : Re
     · have hn := hff.mp hf
       simp [hf, hn]
     · have hf' : fullFor sp s c = false := by simpa using hf
-      have hn : ¬ ∃ n, sp.cap c = some n ∧ 1 ≤ n ∧ (s.occ c).length = n := fun hx => hf (hff.mpr hx)
+      have hn : ¬ ∃ n, sp.cap c = some n ∧ (s.occ c).length = n := fun hx => hf (hff.mpr hx)
       simp only [hf', Bool.false_eq_true, if_false]
       refine ⟨⟨fun hx => by simp at hx, fun hx => absurd hx.2 hn⟩, fun hx => by simp at hx, fun _ => ?_⟩
       refine ⟨trivial, by simp [place, upd_same], by simp [place, upd_same, hnc], fun c' hc' => ?_, fun b hb => ?_, rfl, rfl⟩
@@ -457,7 +461,7 @@ theorem C06_assignment_exact {sp : Space} (hsp : SpaceOK sp) {s : State} (h : Re
       · have hn := hff.mp hf
         simp [hf, hn, hne]
       · have hf' : fullFor sp s c = false := by simpa using hf
-        have hn : ¬ ∃ n, sp.cap c = some n ∧ 1 ≤ n ∧ (s.occ c).length = n := fun hx => hf (hff.mpr hx)
+        have hn : ¬ ∃ n, sp.cap c = some n ∧ (s.occ c).length = n := fun hx => hf (hff.mpr hx)
         simp only [hf', Bool.false_eq_true, if_false]
         refine ⟨⟨fun hx => by simp at hx, fun hx => absurd hx.2 hn⟩, fun hx => by simp at hx, fun _ => ?_⟩
         refine ⟨trivial, by simp [place, upd_same], ?_, fun c' hc' => ?_, fun b hb => ?_, rfl, rfl⟩
@@ -472,7 +476,7 @@ theorem C06_assignment_exact {sp : Space} (hsp : SpaceOK sp) {s : State} (h : Re
 /-- `a.cell = None` on a mobile agent, after any history: always accepted; the agent reports no cell and is in no list,
     every list is the old one without the agent, nobody else is touched.  `FixedAgent`: `a.cell = space[c]` is refused with
     "Cannot move agent in FixedCell" iff the agent has ever been placed (also after its `remove()`), else with "Cell is
-    full" iff the cell holds as many agents as its capacity `n ≥ 1`, else the agent is appended to the cell's list. -/
+    full" iff the cell holds as many agents as its capacity `n`, else the agent is appended to the cell's list. -/
 theorem C06_unplace_and_fixed_exact {sp : Space} (hsp : SpaceOK sp) {s : State} (h : Reachable sp s) (a : Aid) (k : AKind)
     (hk : s.kinds[a]? = some k) :
     (k ≠ .fixed →
@@ -483,7 +487,7 @@ theorem C06_unplace_and_fixed_exact {sp : Space} (hsp : SpaceOK sp) {s : State} 
     (k = .fixed → ∀ c, c ∈ sp.cells →
       ((step sp s (.setCell a (some c))).2 = .err .fixed ↔ s.cellOf a ≠ none) ∧
       ((step sp s (.setCell a (some c))).2 = .err .full ↔
-        s.cellOf a = none ∧ ∃ n, sp.cap c = some n ∧ 1 ≤ n ∧ (s.occ c).length = n) ∧
+        s.cellOf a = none ∧ ∃ n, sp.cap c = some n ∧ (s.occ c).length = n) ∧
       ((step sp s (.setCell a (some c))).2 ≠ .ok → (step sp s (.setCell a (some c))).1 = s) ∧
       ((step sp s (.setCell a (some c))).2 = .ok →
         (step sp s (.setCell a (some c))).1.cellOf a = some c ∧
@@ -528,7 +532,7 @@ theorem C06_unplace_and_fixed_exact {sp : Space} (hsp : SpaceOK sp) {s : State} 
       · have hn := hff.mp hf
         simp [hf, hn]
       · have hf' : fullFor sp s c = false := by simpa using hf
-        have hn : ¬ ∃ n, sp.cap c = some n ∧ 1 ≤ n ∧ (s.occ c).length = n := fun hx => hf (hff.mpr hx)
+        have hn : ¬ ∃ n, sp.cap c = some n ∧ (s.occ c).length = n := fun hx => hf (hff.mpr hx)
         simp only [hf', Bool.false_eq_true, if_false]
         refine ⟨by simp, ⟨fun hx => by simp at hx, fun hx => absurd hx.2 hn⟩, fun hx => by simp at hx, fun _ => ?_⟩
         refine ⟨by simp [place, upd_same], by simp [place, upd_same], fun c' hc' => ?_, fun b hb => ?_⟩
@@ -706,11 +710,17 @@ example : selectRandomAgent s0 (nbhd (nbOfConn sp0.conn) 1 false [0, 0]) [5] = .
 example : s0.cellOf 0 ≠ some [1, 1] ∧ sp0.cap [1, 1] = some 1 ∧ (s0.occ [1, 1]).length = 1 := by decide
 example : (step sp0 s0 (.setCell 0 (some [0, 1]))).1.occ [0, 1] = [0] ∧ (step sp0 s0 (.setCell 0 (some [0, 1]))).1.occ [0, 0] = [] ∧
     (step sp0 s0 (.moveTo 0 [0, 0])).2 = .ok ∧ (step sp0 s0 (.setCell 0 none)).1.cellOf 0 = none := by decide
--- capacity 0 is falsy: a cell of a capacity-0 grid takes any number of agents, and `is_full` is true of the empty cell only
-private def z : Space := gridSpace .vn [1, 2] false (some 0)
+-- capacity 0 is a capacity (repair SC3; it used to be falsy = unlimited): a capacity-0 cell refuses everybody, stays empty — also in
+-- the `empty` layer — and is full; the default capacity of a Voronoi cell of area 1/1000 is 0
+private def z0 : Space := gridSpace .vn [1, 2] false (some 0)
+example : (step z0 (run z0 (init z0) [.new .cell]) (.setCell 0 (some [0, 0]))).2 = .err .full ∧
+    (step z0 (run z0 (init z0) [.new .cell]) (.setCell 0 (some [0, 0]))).1.flag [0, 0] = some true ∧
+    isFull z0 (init z0) [0, 0] = true ∧ isEmpty (init z0) [0, 0] = true := by decide
+example : (vorSpaceAreas 3 [(0, 1, 2)] [(1, 1000), (7, 1000), (5, 1)]).cap [0] = some 0 := by decide
+-- several agents of both kinds in one cell of an unbounded grid
+private def z : Space := gridSpace .vn [1, 2] false none
 private def zops : List Op := [.new .cell, .new .fixed, .new .cell, .setCell 0 (some [0, 0]), .setCell 1 (some [0, 0]), .setCell 2 (some [0, 0])]
-example : (run z (init z) zops).occ [0, 0] = [0, 1, 2] ∧ isFull z (run z (init z) zops) [0, 0] = false ∧
-    isFull z (run z (init z) zops) [0, 1] = true := by decide
+example : (run z (init z) zops).occ [0, 0] = [0, 1, 2] ∧ isFull z (run z (init z) zops) [0, 0] = false := by decide
 -- a FixedAgent: placed once, then "Cannot move agent in FixedCell" — also after its `remove()`
 example : (step z (run z (init z) zops) (.setCell 1 (some [0, 1]))).2 = .err .fixed ∧
     (step z (run z (init z) (zops ++ [.remove 1])) (.setCell 1 (some [0, 1]))).2 = .err .fixed ∧
